@@ -85,6 +85,7 @@ type Case struct {
 	StatusAfter  string    `json:"status_after,omitempty"`
 	HistDuring   int       `json:"hist_during"`         // class running: history files while the first was active, after the second attempt
 	Retry2       *RetryObs `json:"retry_obs,omitempty"` // class retry
+	BothActive   bool      `json:"both_active"`         // class race: A and B were inside a step at the same time
 	BWaited      bool      `json:"b_waited"`            // class race: B did nothing while A was inside its locked section
 	Others       []*Obs    `json:"others,omitempty"`    // class race: the runs B and C
 	Infra        string    `json:"infra,omitempty"`     // the driver itself failed (not an observation)
@@ -730,8 +731,11 @@ func running(k int, rng *vh.Rng, work string, sub string, retry bool) Case {
 // locked section); B is started meanwhile and must wait for the lock (its log stays empty); A is released, binds and
 // blocks inside its first step; B then probes and is refused; so is a third start C.  Observed run = A; B and C under
 // `others`; `b_waited` = B had done nothing 300 ms after its start.
-func race(k int, rng *vh.Rng, work string) Case {
+func race(k int, rng *vh.Rng, work string, save bool) Case {
 	c := Case{K: k, Class: "race", Sub: "probe-bind"}
+	if save {
+		c.Sub = "save" // the definition is saved (DAGStore.UpdateSpec: temp file + rename, a NEW inode) while A is inside its section
+	}
 	s := &spec{dir: filepath.Join(work, fmt.Sprintf("c%d", k)), name: fmt.Sprintf("d%d", k), modes: map[string]string{}}
 	s.steps = validSteps(rng)
 	s.handlers = []string{"exit"}
@@ -753,8 +757,18 @@ func race(k int, rng *vh.Rng, work string) Case {
 		return c
 	}
 	sb := *s
-	sb.modes = map[string]string{}
-	b, err := prepare(&sb, fmt.Sprintf("t%db", k), &agent.Options{})
+	sb.modes = map[string]string{nm(0): "block"} // B would stay inside its first step if it ran
+	btag := fmt.Sprintf("t%db", k)
+	if save {
+		if err := s.stores().DAGStore().UpdateSpec(s.name, []byte(sb.yaml(btag))); err != nil {
+			c.Infra = "UpdateSpec: " + err.Error()
+			close(gate)
+			close(a.rc.release)
+			<-a.done
+			return c
+		}
+	}
+	b, err := prepare(&sb, btag, &agent.Options{})
 	if err != nil {
 		c.Infra = err.Error()
 		close(gate)
@@ -762,6 +776,7 @@ func race(k int, rng *vh.Rng, work string) Case {
 		<-a.done
 		return c
 	}
+	b.held = true
 	go b.run()
 	time.Sleep(300 * time.Millisecond)
 	c.BWaited = len(b.rec.snapshot()) == 0
@@ -769,10 +784,26 @@ func race(k int, rng *vh.Rng, work string) Case {
 	if !a.waitFor("exec:"+nm(0), 10*time.Second) {
 		c.Infra = "A never started its steps"
 		close(a.rc.release)
+		close(b.rc.release)
 		<-a.done
 		<-b.done
 		return c
 	}
+	// B is refused (done) - or it runs too and sits inside its first step while A sits inside its own
+	dl := time.Now().Add(8 * time.Second)
+	for time.Now().Before(dl) {
+		if b.rec.has("exec:" + nm(0)) {
+			c.BothActive = true
+			break
+		}
+		select {
+		case <-b.done:
+			dl = time.Now()
+		default:
+			time.Sleep(2 * time.Millisecond)
+		}
+	}
+	close(b.rc.release)
 	<-b.done
 	cli := client.New(s.stores(), "", s.dir, lg)
 	status := func() string {
@@ -982,7 +1013,8 @@ func main() {
 		add(6*mult, func(k int, rng *vh.Rng) Case { return retryCase(k, rng, work, "stop") })
 	}
 	if want["race"] { // only on request (C16)
-		add(4*mult, func(k int, rng *vh.Rng) Case { return race(k, rng, work) })
+		add(4*mult, func(k int, rng *vh.Rng) Case { return race(k, rng, work, false) })
+		add(4*mult, func(k int, rng *vh.Rng) Case { return race(k, rng, work, true) })
 	}
 	if on("running") {
 		for _, sub := range []string{"steps", "handler", "after"} {
